@@ -326,3 +326,47 @@ Definition run_db (q : string) (input : list N) : string :=
   first_data input (fun t => match conv_db q t with
     | DbNone v => "DbNone " ++ show_Q v | DbLinear x => "Linear " ++ show_Q x
     | DbLog v r => "Log " ++ show_Q v ++ " " ++ show_Q r | DbErr e => "E" ++ show_Z e end).
+
+(* ---- kind dev, full stack (C13, C15, C16): real message bytes through lexer, dispatcher and the contrib handlers ---- *)
+From VF Require Import Contrib.
+Inductive dstep2 :=
+| DMsg2 (mav : bool) (msg : list N)
+| DSetCond2 (r : regname) (c : N)
+| DSetBits2 (r : regname) (mask : N)          (* EventRegister::set_condition_bits *)
+| DClrBits2 (r : regname) (mask : N)          (* EventRegister::clear_condition_bits *)
+| DSetTst2 (t : option Z).
+Fixpoint run_dev2_steps (d : dev) (steps : list dstep2) : list string :=
+  match steps with
+  | [] => []
+  | DMsg2 mav msg :: rest =>
+    match dev_message d mav msg with
+    | Panic s => ["PANIC " ++ s]
+    | Val (d', out, None) => ("OK " ++ show_bytes out ++ " " ++ show_dev d' 0) :: run_dev2_steps d' rest
+    | Val (d', _, Some e) => (show_error e ++ " - " ++ show_dev d' 1) :: run_dev2_steps d' rest
+    end
+  | DSetCond2 r c :: rest =>
+    let d' := put_reg d r (reg_set_condition (get_reg d r) c) in
+    ("- - " ++ show_dev d' 0) :: run_dev2_steps d' rest
+  | DSetBits2 r m :: rest =>
+    let d' := put_reg d r (reg_set_condition (get_reg d r) (N.lor (Status.condition (get_reg d r)) m)) in
+    ("- - " ++ show_dev d' 0) :: run_dev2_steps d' rest
+  | DClrBits2 r m :: rest =>
+    let d' := put_reg d r (reg_set_condition (get_reg d r) (N.land (Status.condition (get_reg d r)) (not16 m))) in
+    ("- - " ++ show_dev d' 0) :: run_dev2_steps d' rest
+  | DSetTst2 t :: rest =>
+    let d' := set_tst d t in
+    ("- - " ++ show_dev d' 0) :: run_dev2_steps d' rest
+  end.
+Definition run_dev2 (steps : list dstep2) : string := join " | " (run_dev2_steps dev_init steps).
+(* full-stack result, cross-checked against the operation-level model the theorems of C13/C15/C16 are stated for *)
+Definition run_dev_both (steps : list dstep2) (ops : list dstep) : string :=
+  let a := run_dev2 steps in
+  if String.eqb a (run_dev ops) then a else a ++ " !operation-level-model-differs".
+(* the model's tree in the harness' `devtree` notation *)
+Fixpoint show_tree (t : tree cdev) : string :=
+  match t with
+  | Leaf n d _ => "L" ++ (if d then "d" else "") ++ show_bytes n ++ ";"
+  | Branch n d sub => "B" ++ (if d then "d" else "") ++ show_bytes n ++ "(" ++
+      (fix go (l : list (tree cdev)) : string := match l with [] => "" | x :: r => show_tree x ++ go r end) sub ++ ");"
+  end.
+Definition run_devtree : string := show_tree contrib_tree.
